@@ -473,6 +473,39 @@ fn pw_strings(cx: &mut Ctx, idx: &mut u64) {
             }
         }
     }
+    // exhaustive single-character edits (insert / delete / replace at every position) of well-formed strings
+    let edit_chars: [char; 14] = ['$', ',', '=', 'm', 't', 'p', 'v', 'x', ' ', '0', '9', 'A', '-', '\u{e9}'];
+    let bases = [
+        format!("$argon2id$v=19$m=8,t=1,p=1${}${}", "c29tZXNhbHRzb21lc2FsdA", "AAAAAAAAAAAAAAAAAAAAAAAAAAAAAAAAAAAAAAAAAAA"),
+        format!("$argon2i$v=19$m=16,t=2,p=1${}${}", "c29tZXNhbHQ", "AAAAAAAAAAAAAAAAAAAAAA"),
+    ];
+    for (bi, base) in bases.iter().enumerate() {
+        let chars: Vec<char> = base.chars().collect();
+        for pos in 0..=chars.len() {
+            *idx += 1;
+            if !cx.mine(*idx) {
+                continue;
+            }
+            cx.key(&format!("single_edit {} {}", bi, pos));
+            for ch in edit_chars {
+                // insert
+                let mut c = chars.clone();
+                c.insert(pos, ch);
+                pw_case(cx, &c.iter().collect::<String>(), "single_edit_insert", hash_ok);
+                if pos < chars.len() {
+                    // replace
+                    let mut c = chars.clone();
+                    c[pos] = ch;
+                    pw_case(cx, &c.iter().collect::<String>(), "single_edit_replace", hash_ok);
+                }
+            }
+            if pos < chars.len() {
+                let mut c = chars.clone();
+                c.remove(pos);
+                pw_case(cx, &c.iter().collect::<String>(), "single_edit_delete", hash_ok);
+            }
+        }
+    }
     if cx.shard == 0 {
         cx.sample(json!({"family":"pwhash_grammar","example":"$argon2id$v=19$m=1025,t=3,p=1$AAAAAAAAAAAAAAAAAAAAAA$<43 chars> (verify skipped: m above the bounded-cost cap, parse paths still run)"}));
     }
